@@ -113,6 +113,7 @@ func checkC09(c *Ctx) {
 	c09Dispatch(c)
 	c09Values(c)
 	c09Scenes(c)
+	c09PutAnswers(c)
 	c09Nested(c)
 	c09Reentrant(c)
 	c09OtherPlatforms(c)
